@@ -88,3 +88,23 @@ claim("C20", E2,
       "path-forking symbolic execution of the Python code objects (z3 feasibility + per-path validity queries), inductive step for the cadence",
       "DESIGN.md §3 C20")
 NOT_APPLICABLE.pop("C20", None)
+
+claim("C02", E2,
+      "Symbolic execution of the real ReplayBuffer / LAP / PrioritizedReplayBuffer / MultiTaskReplayBuffer classes from the empty "
+      "state: a symbolic number of additions n in [0,N+3] (capacities 1-4, so exact wrap-around and overwriting are covered) of "
+      "transitions whose every field is a fresh symbol, then one sampled batch whose generator draws are arbitrary in-range values; "
+      "length=min(n,N), every row equals (all fields) one of the last min(n,N) transitions, each of those is still held, never-"
+      "written (poisoned) slots are never returned; multi-task: <=5 symbolic select/add/sample operations over 2 tasks.",
+      E2NOTE + " numpy allocation inside replay_buffer.py is shimmed to object arrays; dtype casts other than flag->int are outside the claim.",
+      "path-forking symbolic execution of the real classes under an allocation-only numpy shim; per-path SMT validity of the row-membership disjunction",
+      "DESIGN.md §3 C02")
+NOT_APPLICABLE.pop("C02", None)
+claim("C15", E2,
+      "assess_performance_and_checkpoint as ONE INDUCTIVE STEP over unbounded ints/reals from an arbitrary CheckpointState "
+      "satisfying the invariant: released in {0, window sum}, release <=> window complete or cut short, counters reset / accumulate, "
+      "checkpoint replaced <=> complete window with min return >= best, window-size switch <=> epoch < threshold <= epoch+window; "
+      "plus histories of <=5 episodes with the ghost equation released + pending = collected.",
+      E2NOTE + " train_td7's release loop and checkpoint copy are not covered by this check yet.",
+      "path-forking symbolic execution of the real function (no loops => no unrolling bound) + bounded histories",
+      "DESIGN.md §3 C15")
+NOT_APPLICABLE.pop("C15", None)
